@@ -19,6 +19,7 @@ RULE = (
     "The whole alteration set is also played at the RPC-client level against a scripted security context that leaves data_readonly buffers unsigned (so 'header signing off' really is off): the stub handed to the caller must be byte-for-byte the sealed plaintext, or an exception. Trailer removal is combined with every value of the header flags byte. Oracle: (a) and (f) must raise; otherwise raise, or return exactly what the genuine reply yields (unprotect: the plaintext; protect: a blob that names the DC's key and opens with the genuine "
     "root key). A blob that opens with the attacker's key, or a plaintext obtained through an unsealed reply, is the violation. Non-trivial = the tampered reply reached the client; distinct by alteration."
     " Lifecycle part: the authentication provider of a finished connection handed to a NEW client object whose peer is an impostor without keys (sync, async, lenient / strict provider); close() from another task while a request is in flight and the reply that arrives is unsealed - the impostor's stub is never returned and no request leaves unsealed."
+    ' Alterations include the sealed reply replaced by an unsealed fault PDU that carries a stub (5 status codes incl. 0 x 3 bodies x 3 flag values).'
 )
 ASSUME = ["pyspnego's NTLM implementation is the security context (both ends)", "a client blocking on a shortened/lengthened frame is an error outcome (the real peer would close)"]
 BOUND = {"quick": "bit flips: header/trailer/signature/body edges + bit0 of each body byte, header signing on; sign-off subset", "thorough": "every single-bit flip, both header-signing modes, both operations, sync + async"}
